@@ -327,9 +327,13 @@ fn torn_kind(kind: Kind) {
     let feats = F_VERSION_1 | F_INDIRECT * choose(2) | F_EVENT_IDX * choose(2) | kind.implemented_device_bits() & !(1 << 5);
     zoo::setup_device(kind, feats, version_config(kind, 0));
     zoo::install_personality(kind);
-    let n = choose(5);
+    // up to 4 further versions, or (one run in four) up to 14 with an eager agent: retry loops
+    // must not give up and return an unchecked value after a few changes in a row
+    let many = flip(1, 4);
+    let n = if many { 5 + choose(10) } else { choose(5) };
     with(|w| {
         w.cfg_versions = (1..=n).map(|v| version_config(kind, v)).collect();
+        w.cfg_agent_eager = many;
     });
     oplog(|| format!("{} over {tk:?}; the device may switch through {n} further configuration versions at any configuration access", zoo::kind_name(kind)));
     if let Err(e) = zoo::with_transport(tk, Torn { kind }) {
